@@ -1164,7 +1164,7 @@ def regression_replays(ctx, cnt, tags=None):
     """harness/c18_replays.py in a process of its own (it hooks shutil / tempfile / GIRParser): F0-F5 and M1 (several
     source files) must pass without any suppression; R1 is the recorded finding and is expected to reproduce"""
     script = os.path.join(VERIF, 'harness', 'c18_replays.py')
-    want = tags or ['F0', 'F1', 'F2', 'F3', 'F4', 'F5', 'M1', 'R1']
+    want = tags or ['F0', 'F1', 'F2', 'F3', 'F4', 'F5', 'M1', 'M2', 'R1']
     try:
         p = subprocess.run([sys.executable, script] + want, stdout=subprocess.PIPE, stderr=subprocess.STDOUT,
                            timeout=300, env=dict(os.environ, GIVERIF_REPO=REPO, PYTHONDONTWRITEBYTECODE='1'))
@@ -1197,7 +1197,7 @@ def regression_replays(ctx, cnt, tags=None):
         elif r['verdict'] == 'VIOLATED':
             ctx.report_failure('replay:%s:%s' % (tag, r['key']),
                                '%s on the real call site and file systems (%s): %s'
-                               % ('a load returns the parse of another file' if tag.startswith('M')
+                               % ('a load returns the parse of another file' if tag == 'M1'
                                   else 'a repaired finding reproduces', r['key'], r['details']), rep)
         elif r['verdict'] == 'skipped':
             ctx.notes.append('replay %s not covered: %s' % (tag, r['details']))
@@ -1216,7 +1216,13 @@ def regression_replays(ctx, cnt, tags=None):
 # working directory.  What the statement says about load(p): nothing, or the parse of a version of the file that p
 # names that was current during the load.  Which spellings share a cache entry is NOT judged (two spellings of one
 # file may or may not): only what load returns.
+# The working directory may change between the operations of one history (op ['cd', dir]): scanners run from
+# different directories share the user's cache, and the same relative spelling then names different files.
 MS_CWD = 'a/b/c'
+# working directories (relative to the scratch root); 'a/b/c' is the one $ABS / $REL refer to
+MS_DIRS = ['a/b/c', 'a/b/d', 'a/b', 'a/b/c/c', 'a/b/c/x']
+MS_RELATIVE = ['Dep-1.0.gir', './Dep-1.0.gir', '../Dep-1.0.gir', 'x/Dep-1.0.gir', 'c/Dep-1.0.gir', '../c/Dep-1.0.gir',
+               '.Dep-1.0.gir']
 MS_NAME = SRC_NAME
 # $ABS = the working directory (absolute); $REL = the same string without its leading '/', i.e. a relative spelling
 MS_SPELLINGS = [
@@ -1238,7 +1244,8 @@ MS_GROUPS = [
 
 
 class MultiSource(object):
-    """runs one multi-source case: ops = [['write', spelling, mtime, ns] | ['store', spelling] | ['load', spelling]]"""
+    """runs one multi-source case: ops = [['write', spelling, mtime, ns] | ['store', spelling] | ['load', spelling]
+    | ['cd', directory relative to the scratch root]]; the case starts in MS_CWD"""
 
     def __init__(self, ctx, ex):
         self.ctx = ctx
@@ -1271,6 +1278,11 @@ class MultiSource(object):
         os.chdir(self.cwd)
         try:
             for i, op in enumerate(case['ops']):
+                if op[0] == 'cd':
+                    d = os.path.join(self.root, op[1])
+                    os.makedirs(d, exist_ok=True)
+                    os.chdir(d)
+                    continue
                 path = self.spell(op[1])
                 if op[0] == 'write':
                     d = os.path.dirname(path)
@@ -1345,6 +1357,13 @@ def ms_directed():
         for p, q in itertools.permutations(g[:4], 2):
             cases.append({'ops': [['write', p, 5, 0], ['write', q, 5, 0], ['store', p], ['load', q], ['load', p]],
                           'origin': 'directed:pair'})
+    # one relative spelling, two working directories in which it names two files carrying one mtime: a scanner
+    # run in A stores, a scanner run in B loads (and then one in A again)
+    for a, b in itertools.permutations(MS_DIRS, 2):
+        for p in MS_RELATIVE:
+            cases.append({'ops': [['cd', a], ['write', p, 5, 0], ['cd', b], ['write', p, 5, 0], ['cd', a], ['store', p],
+                                  ['cd', b], ['load', p], ['store', p], ['load', p], ['cd', a], ['load', p]],
+                          'origin': 'directed:two-cwds'})
     return cases
 
 
@@ -1357,10 +1376,22 @@ def ms_random(rng):
     pool = rng.choice([[5], [5, 5, 6], [3, 5, 8], [5]])
     nsp = rng.choice([[0], [0], [0, 1, 999999999], [123456789]])
     ops = [['write', s, rng.choice(pool), rng.choice(nsp)] for s in names]
+    dirs = [MS_CWD]
+    if rng.random() < 0.5:
+        # several working directories: every name exists in each of them (absolute spellings: the same file again)
+        dirs = [MS_CWD] + rng.sample(MS_DIRS[1:], rng.choice([1, 1, 2]))
+        names = [s for s in names if not s.startswith('$REL')] or ['Dep-1.0.gir']
+        ops = []
+        for d in dirs:
+            ops.append(['cd', d])
+            ops.extend(['write', s, rng.choice(pool), rng.choice(nsp)] for s in names)
+        ops.append(['cd', MS_CWD])
     nxt = 20
     for _ in range(rng.choice([3, 5, 8, 12])):
         r = rng.random()
         s = rng.choice(names)
+        if len(dirs) > 1 and rng.random() < 0.5:
+            ops.append(['cd', rng.choice(dirs)])
         if r < 0.4:
             ops.append(['store', s])
         elif r < 0.8:
@@ -1374,8 +1405,11 @@ def ms_random(rng):
             # ... but it may be the mtime another file already carries: all files are brought to one new mtime
             nxt += 1
             ops.extend(['write', t, nxt, 0] for t in names)
-    ops.extend(['load', s] for s in names)
-    return {'ops': ops, 'origin': 'random'}
+    for d in dirs:
+        if len(dirs) > 1:
+            ops.append(['cd', d])
+        ops.extend(['load', s] for s in names)
+    return {'ops': ops, 'origin': 'random' if len(dirs) == 1 else 'random:several-cwds'}
 
 
 def ms_shrink(ms, case, verdict):
@@ -1437,31 +1471,41 @@ def multi_source(ctx, ex, cnt):
         hits += sum(1 for x in res if x[2] == 'fresh-ok')
         cnt.case(['multi-source', c['ops']], nontrivial=any(x[2] == 'fresh-ok' for x in res))
     # the entry-name function, through the public surface: which file appears in the cache directory for a store
-    # of spelling p (the model's assumption: a name that distinct paths do not share, sha1 of the path as given)
+    # of spelling p by a process whose working directory is d.  The model's assumption (Lean: hinj): a name that
+    # distinct ABSOLUTE NORMALISED paths do not share: sha1 of os.path.abspath(p) in d, i.e. of
+    # normpath(join(d, p)) ('.', '..', '//' inside a path are normalised away, symlinks are not resolved)
     import hashlib
     names = {}
     mismatch = []
-    for p in MS_SPELLINGS:
-        ms.run({'ops': [['write', p, 5, 0], ['store', p]]})
+    pairs = [(MS_CWD, p) for p in MS_SPELLINGS] + [(d, p) for d in MS_DIRS[1:] for p in MS_RELATIVE]
+    for d, p in pairs:
+        ms.run({'ops': [['cd', d], ['write', p, 5, 0], ['store', p]]})
         ent = sorted(f for f in os.listdir(ex.cachedir) if not f.startswith('.'))
-        want = hashlib.sha1(ms.spell(p).encode('utf-8')).hexdigest()
-        names[p] = ent
+        absolute = os.path.normpath(os.path.join(ms.root, d, ms.spell(p)))
+        want = hashlib.sha1(absolute.encode('utf-8')).hexdigest()
+        names[(d, p)] = (ent, os.path.realpath(absolute))
         if ent != [want]:
-            mismatch.append((p, ent))
+            mismatch.append((d, p, ent))
     if mismatch:
-        ctx.broken.append('correspondence c18.entry-name: a store of %r leaves %s in the cache directory, the model '
-                          'assumes exactly one entry named sha1(path as given) (an injective function of the path); '
-                          '%d of %d spellings differ' % (mismatch[0][0], mismatch[0][1], len(mismatch),
-                                                         len(MS_SPELLINGS)))
-    for p, q in itertools.combinations(MS_SPELLINGS, 2):
-        if names[p] and names[p] == names[q]:
-            shared.add((p, q))
+        ctx.broken.append('correspondence c18.entry-name: a store of %r from working directory <scratch>/%s leaves %s in '
+                          'the cache directory, the model assumes exactly one entry named sha1(os.path.abspath(path)) '
+                          '(an injective function of the absolute normalised path); %d of %d (directory, spelling) '
+                          'pairs differ' % (mismatch[0][1], mismatch[0][0], mismatch[0][2], len(mismatch), len(pairs)))
+    n_same_file_shared = 0
+    for x, y in itertools.combinations(pairs, 2):
+        if names[x][0] and names[x][0] == names[y][0]:
+            if names[x][1] == names[y][1]:
+                n_same_file_shared += 1         # two spellings of one file: sharing is right
+            else:
+                shared.add(('%s:%s' % x, '%s:%s' % y))
     ex.clean_dirs()
     real_shutil.rmtree(ms.root, ignore_errors=True)
     if hits == 0:
         ctx.notes.append('multi-source: no load was served from the cache (the clause is vacuously true)')
     return {'cases': len(cases), 'runs_including_shrinking': ms.n, 'loads_served_from_cache': hits,
-            'spellings': len(MS_SPELLINGS), 'spellings_sharing_an_entry': sorted(shared)[:10],
+            'spellings': len(MS_SPELLINGS), 'working_directories': len(MS_DIRS),
+            'spellings_of_one_file_sharing_an_entry': n_same_file_shared,
+            'different_files_sharing_an_entry': sorted(shared)[:10],
             'seconds': round(time.time() - t0, 1)}
 
 
@@ -1673,8 +1717,11 @@ def run(ctx):
                 'Multi-source part (every run): several dependency GIRs existing at once under spellings that differ '
                 'only in leading . and / characters, are prefixes / suffixes of one another, an absolute spelling and '
                 'the relative one equal to it without its leading /, several spellings of one file, files carrying '
-                'one mtime; sequential write / store / load on the real unpatched CacheStore in a scratch working '
-                'directory; load(p) must return nothing or the parse of the current version of the file p names. '
+                'one mtime, and a working directory that changes between operations (one relative spelling naming '
+                'two files from two directories); sequential cd / write / store / load on the real unpatched '
+                'CacheStore in scratch working directories; load(p) must return nothing or the parse of the current '
+                'version of the file p names in the working directory of the load. Entry name = '
+                'sha1(os.path.abspath(path)) is checked through the public surface (c18.entry-name). '
                 'non-trivial = at least three system calls were executed; distinct by content hash.',
         'samples': state['samples'],
         'distribution': cnt.counts,
